@@ -167,4 +167,59 @@ example : exec (hshProg true) 0 none = .ok () ∧ count (hshProg true) = 4 ∧
     C20-7) is not checked, and the schedule "first allocation fails" crashes -/
 example : checkedB (hshProgHeadOnly true) = false ∧ exec (hshProgHeadOnly true) 0 (some 0) = .crashed := by decide
 
+/-! ### the discipline composes -/
+
+theorem allFail_bind {α β : Type} (p : Prog α) (f : α → Prog β) (h : AllFail p) : AllFail (Alloc.bind p f) := by
+  induction p with
+  | ret a => exact h.elim
+  | fail => trivial
+  | crash => exact h.elim
+  | alloc k ih => exact ⟨ih true h.1, ih false h.2⟩
+
+/-- **Sequencing checked calls gives a checked call**: a call built from calls that each follow the
+    discipline follows it — so `never_lies` holds for the composite with no further work -/
+theorem checked_bind {α β : Type} (p : Prog α) (f : α → Prog β) (hp : Checked p) (hf : ∀ a, Checked (f a)) :
+    Checked (Alloc.bind p f) := by
+  induction p with
+  | ret a => exact hf a
+  | fail => trivial
+  | crash => exact hp.elim
+  | alloc k ih => exact ⟨ih true hp.1, allFail_bind _ f hp.2⟩
+
+/-- the allocation count of a composite whose first part returns: the sum -/
+theorem count_bind_steps {β : Type} (n : Nat) (q : Prog β) :
+    count (Alloc.bind (steps () n) fun _ => q) = n + count q := by
+  induction n with
+  | zero => simp [steps, Alloc.bind]
+  | succ n ih =>
+    have h : count (Alloc.bind (steps () (n + 1)) fun _ => q) = count (Alloc.bind (steps () n) fun _ => q) + 1 := by
+      simp [steps, step, Alloc.bind, count]
+    rw [h, ih]; omega
+
+theorem b64Enc_checked (sizeOk : Bool) : Checked (b64EncProg sizeOk) := by
+  rw [← checkedB_iff]; cases sizeOk <;> decide
+
+/-- the JSON wrappers of lib/b64.c, for any number of allocations inside the JSON layer's dump / parse -/
+theorem b64_wrappers_checked (dump parse : Nat) (sizeOk decOk parseOk : Bool) :
+    Checked (b64EncDumpProg dump sizeOk) ∧ Checked (b64DecLoadProg sizeOk decOk parseOk parse) := by
+  constructor
+  · exact checked_bind _ _ (steps_checked () dump) (fun _ => b64Enc_checked sizeOk)
+  · unfold b64DecLoadProg
+    cases sizeOk
+    · trivial
+    · refine ⟨?_, trivial⟩
+      cases decOk
+      · trivial
+      · exact checked_bind _ _ (steps_checked () parse) (fun _ => by cases parseOk <;> trivial)
+
+/-- hence: under any single failed allocation `jose_b64_enc_dump` fails or returns what it returns
+    without the fault, however many allocations the dump makes -/
+theorem b64_enc_dump_never_lies (dump k : Nat) (sizeOk : Bool) :
+    exec (b64EncDumpProg dump sizeOk) 0 (some k) = .failed ∨
+    exec (b64EncDumpProg dump sizeOk) 0 (some k) = exec (b64EncDumpProg dump sizeOk) 0 none :=
+  never_lies _ (b64_wrappers_checked dump 0 sizeOk true true).1 k
+
+example : count (b64EncDumpProg 5 true) = 7 ∧ exec (b64EncDumpProg 5 true) 0 none = .ok () ∧
+    exec (b64EncDumpProg 5 true) 0 (some 6) = .failed := by decide
+
 end Jose.Props.C20
